@@ -1,4 +1,5 @@
 import Abyss.Stats
+import Abyss.Lemmas.StatsL
 import Abyss.Props.C06
 /-!
 # C17 — the storage statistics calls report the true structure
@@ -13,17 +14,27 @@ def histOf (l : List Nat) : List (Nat × Nat) := l.foldl touch []
 occurrences: the count of `x` in `histOf l` is the number of occurrences of `x` in `l` -/
 theorem histOf_count (l : List Nat) (x : Nat) :
     ((histOf l).find? (·.1 = x)).map (·.2) = if l.count x = 0 then none else some (l.count x) := by
-  sorry
+  have h := foldl_touch_get l [] x (by simp [HistSorted])
+  simpa [histOf, histGet] using h
 
 theorem histOf_sorted (l : List Nat) : (histOf l).map (·.1) |>.Pairwise (· < ·) := by
-  sorry
+  exact foldl_touch_sorted l [] (by simp [HistSorted])
 
 /-- free-slot counts: for every class the reported number is the length of that class's free
 list; the call terminates -/
 theorem C17_free_counts {α : Type} {c : FileCfg} {f : RecFile α} (hc : CfgOK c) (h : WF c f) (sizes : List Nat) :
     ∃ r, Store.countFreeList c f sizes = some r ∧ r.map (·.1) = sizes ∧
       ∀ p ∈ r, ∃ l, freeList f (headIdx c p.1) = some l ∧ p.2 = l.length := by
-  sorry
+  induction sizes with
+  | nil => exact ⟨[], rfl, rfl, by simp⟩
+  | cons sz rest ih =>
+    obtain ⟨r, hr, hm, hp⟩ := ih
+    obtain ⟨l, hl, hcnt⟩ := RecFile.countFree_spec hc h sz
+    refine ⟨(sz, l.length) :: r, by simp [Store.countFreeList, hcnt, hr], by simp [hm], ?_⟩
+    intro p hpm
+    rcases List.mem_cons.mp hpm with rfl | hpm
+    · exact ⟨l, hl, rfl⟩
+    · exact hp p hpm
 
 /-- key / value piece-size and length statistics: the walk terminates and the result is the
 histogram over exactly the used slots with a non-empty key (value) — free slots and empty
@@ -31,18 +42,32 @@ payloads have length 0 and are not counted -/
 theorem C17_key_stats {kt : KeyType} {s : Store} (h : Inv kt s) :
     s.keyPieceSizeStats = some (histOf ((s.kf.slots.filter fun p => keyLenOf p.2 ≠ 0).map fun p => p.2.size)) ∧
     s.keyLengthStats = some (histOf ((s.kf.slots.filter fun p => keyLenOf p.2 ≠ 0).map fun p => keyLenOf p.2)) := by
-  sorry
+  have hw := RecFile.walk_spec keyCfg_ok h.kwf
+  constructor
+  · simp only [keyPieceSizeStats, hw, Option.map_some, histOf]
+    exact congrArg some (foldl_cond_touch (fun p : Nat × Slot KeyRec => keyLenOf p.2 ≠ 0) (fun p => p.2.size) _ [])
+  · simp only [keyLengthStats, hw, Option.map_some, histOf]
+    exact congrArg some (foldl_cond_touch (fun p : Nat × Slot KeyRec => keyLenOf p.2 ≠ 0) (fun p => keyLenOf p.2) _ [])
 
 theorem C17_value_stats {kt : KeyType} {s : Store} (h : Inv kt s) :
     s.valuePieceSizeStats = some (histOf ((s.vf.slots.filter fun p => valLenOf p.2 ≠ 0).map fun p => p.2.size)) ∧
     s.valueLengthStats = some (histOf ((s.vf.slots.filter fun p => valLenOf p.2 ≠ 0).map fun p => valLenOf p.2)) := by
-  sorry
+  have hw := RecFile.walk_spec valCfg_ok h.vwf
+  constructor
+  · simp only [valuePieceSizeStats, hw, Option.map_some, histOf]
+    exact congrArg some (foldl_cond_touch (fun p : Nat × Slot (List Nat) => valLenOf p.2 ≠ 0) (fun p => p.2.size) _ [])
+  · simp only [valueLengthStats, hw, Option.map_some, histOf]
+    exact congrArg some (foldl_cond_touch (fun p : Nat × Slot (List Nat) => valLenOf p.2 ≠ 0) (fun p => valLenOf p.2) _ [])
 
 /-- the slots counted are exactly the live entries with a non-empty key: a slot of the key file
 has a non-zero key length iff it is a used record whose key is not empty -/
 theorem C17_counted_are_live (sl : Slot KeyRec) :
     keyLenOf sl ≠ 0 ↔ ∃ sz r, sl = .used sz r ∧ r.key ≠ [] := by
-  sorry
+  cases sl with
+  | used sz r =>
+    simp [keyLenOf]
+  | free sz nx =>
+    simp [keyLenOf]
 
 /-- the bucket filling figure is the number of non-empty buckets, and the per-mille figure is
 `count * 1000 / n` -/
